@@ -522,6 +522,7 @@ def Tok.strs : Tok → List Char
   | .n v => (toString v).toList
   | .g xs => strsL xs
   | .nm _ _ _ xs => strsL xs
+  | .hid _ => []
 def strsL : List Tok → List Char
   | [] => []
   | t :: ts => t.strs ++ strsL ts
@@ -534,6 +535,7 @@ def Tok.flat : Tok → List Tok
   | .n v => [.n v]
   | .g xs => [.g (flatL xs)]
   | .nm _ _ _ xs => flatL xs
+  | .hid _ => []
 def flatL : List Tok → List Tok
   | [] => []
   | t :: ts => t.flat ++ flatL ts
@@ -543,17 +545,34 @@ end
 mutual
 def Tok.stripTop : Tok → List Tok
   | .nm _ _ _ xs => stripTopL xs
+  | .hid _ => []
   | t => [t]
 def stripTopL : List Tok → List Tok
   | [] => []
   | t :: ts => t.stripTop ++ stripTopL ts
 end
 
+mutual
+/-- how many strings `_asStringList()` yields for an item (a nested result contributes one per leaf, maybe none) -/
+def Tok.cnt : Tok → Nat
+  | .s _ => 1
+  | .n _ => 1
+  | .g xs => cntL xs
+  | .nm _ _ _ xs => cntL xs
+  | .hid _ => 0
+def cntL : List Tok → Nat
+  | [] => 0
+  | t :: ts => t.cnt + cntL ts
+end
+
+/-- the loop of `_asStringList(sep)` (results.py:501-510): `if out and sep: out.append(sep)` — the separator goes in
+    front of an item only when something was emitted before (an empty nested result at the front emits nothing) -/
+def combineGo (join : List Char) : Bool → List Tok → List Char
+  | _, [] => []
+  | started, t :: ts => (if started then join else []) ++ t.strs ++ combineGo join (started || t.cnt > 0) ts
+
 /-- `"".join(tokenlist._asStringList(joinString))` (Combine.postParse 5872-5877) -/
-def combineStr (join : List Char) : List Tok → List Char
-  | [] => []
-  | [t] => t.strs
-  | t :: ts => t.strs ++ join ++ combineStr join ts
+def combineStr (join : List Char) (ts : List Tok) : List Char := combineGo join false ts
 
 /-! ### parse actions (library shared with harness/actions.py) -/
 
@@ -598,12 +617,38 @@ def runActs : List Act → Nat → Nat → List Tok → Out
     | .failF => .fail .fatal start
     | .condFalse fatal => .fail (if fatal then .fatal else .parse) start
 
+/-- does the token list carry annotations at this level (results names / hidden parts)? -/
+def annotatedL (ts : List Tok) : Bool :=
+  ts.any (fun t => match t with
+    | .nm _ _ _ _ => true
+    | .hid _ => true
+    | _ => false)
+
+mutual
+/-- `haskeys()` of the result of `ts`: some results name got a value at this level (asList binds even an empty
+    result, otherwise the first item is needed: results.py:199-213) -/
+def hasKeysT : Tok → Bool
+  | .nm n _ al ts => (!n.isEmpty && (al || !(stripTopL ts).isEmpty)) || hasKeysL ts
+  | .hid ts => hasKeysL ts
+  | _ => false
+def hasKeysL : List Tok → Bool
+  | [] => false
+  | t :: ts => hasKeysT t || hasKeysL ts
+end
+
+/-- Combine.postParse (5897-5908) on a result that carries names: `retToks = tokenlist.copy(); del retToks[:];
+    retToks += ParseResults([joined])` keeps the names on the joined token (`_asStringList(sep)` joins the ITEMS);
+    `if self.resultsName and retToks.haskeys(): return [retToks]` — a nested result when the Combine itself is named -/
+def combineKeep (nd : Node) (join : List Char) (ts : List Tok) : List Tok :=
+  let r : List Tok := [.hid ts, .s (combineStr join (stripTopL ts))]
+  if nd.hasName && hasKeysL ts then [.g r] else r
+
 /-- postParse of the token converters (Group 5911, Suppress 6057, Combine 5872) -/
 def postParse (nd : Node) (ts : List Tok) : List Tok :=
   match nd.kind with
   | .group _ => [.g ts]
   | .suppress _ => []
-  | .combine _ join => [.s (combineStr join ts)]
+  | .combine _ join => if annotatedL ts then combineKeep nd join ts else [.s (combineStr join ts)]
   | _ => ts
 
 /-- ParseElementEnhance.parseImpl (4703-4718): `pbe.loc = pbe.loc or loc` -/
@@ -696,8 +741,9 @@ def parseImpl (g : Grammar) (p : P) (nd : Node) (s : List Char) (loc : Nat) (act
        | some false => .ok loc [])
   | .followedBy e =>
       -- FollowedBy.parseImpl (4927-4933)
+      -- `_, ret = self.expr._parse(..); del ret[:]`: no tokens, but the names bound by the lookahead stay
       (match p e loc acts true with
-       | .ok _ _ => .ok loc []
+       | .ok _ ts => .ok loc (if annotatedL ts then [.hid ts] else [])
        | o => o)
   | .located e =>
       -- Located.parseImpl (5045-5056)
